@@ -79,22 +79,34 @@ def validate_trace(trace, wd, timeout=900):
     return res
 
 
-def run_mc(model, cfg, wd, workers, timeout, extra_env=None):
-    """exhaustive small-format model; returns (ok, states, transitions, log)"""
-    env = {"XMX": "12g"}
-    env.update(extra_env or {})
-    rc, log, dt = tlc(["-workers", str(workers), "-coverage", "1", "-config", cfg, model], env,
-                      os.path.join(wd, "md_" + cfg.replace(".cfg", "")), timeout)
-    if rc == 124:
-        raise ToolError("TLC timeout on model %s/%s" % (model, cfg))
-    m = re.search(r"(\d+) states generated, (\d+) distinct states found", log)
-    states = int(m.group(2)) if m else 0
-    trans = int(m.group(1)) if m else 0
-    ok = "Model checking completed. No error has been found." in log
-    violated = "is violated" in log or "Error: Invariant" in log or "Assumption" in log and "is false" in log
-    if not ok and not violated:
-        raise ToolError("TLC failed on model %s/%s rc=%d\n%s" % (model, cfg, rc, log[-3000:]))
-    return ok, states, trans, log, dt
+def run_mc(model, cfg, wd, nslices, timeout, extra_env=None):
+    """exhaustive small-format model, sliced over `nslices` TLC processes (one worker each);
+    returns (ok, states, transitions, log of the first failing slice or of slice 0, wall)"""
+    t0 = time.time()
+
+    def one(sl):
+        env = {"XMX": "4g", "VERIF_SLICE": str(sl), "VERIF_NSLICES": str(nslices)}
+        env.update(extra_env or {})
+        rc, log, dt = tlc(["-workers", "1", "-config", cfg, model], env,
+                          os.path.join(wd, "md_%s_%d" % (cfg.replace(".cfg", ""), sl)), timeout)
+        if rc == 124:
+            raise ToolError("TLC timeout on model %s/%s slice %d" % (model, cfg, sl))
+        m = re.search(r"(\d+) states generated, (\d+) distinct states found", log)
+        ok = "Model checking completed. No error has been found." in log
+        violated = "is violated" in log
+        if not ok and not violated:
+            raise ToolError("TLC failed on model %s/%s slice %d rc=%d\n%s" % (model, cfg, sl, rc, log[-3000:]))
+        if ok and "MC_SIZES" not in log:
+            raise ToolError("model %s/%s slice %d did not report its sizes (vacuous run?)" % (model, cfg, sl))
+        return ok, (int(m.group(2)) if m else 0), (int(m.group(1)) if m else 0), log
+
+    with cf.ThreadPoolExecutor(JOBS) as ex:
+        outs = list(ex.map(one, range(nslices)))
+    ok = all(o[0] for o in outs)
+    states = sum(o[1] for o in outs)
+    trans = sum(o[2] for o in outs)
+    log = next((o[3] for o in outs if not o[0]), outs[0][3])
+    return ok, states, trans, log, time.time() - t0
 
 
 # ------------------------------------------------------------------ traces
@@ -251,7 +263,7 @@ def run(prop, plan, tier, seed, replay, wd, known, t0):
         for mcj in plan.get("models", []):
             if tier == "quick" and mcj.get("tier") == "thorough":
                 continue
-            ok, st, tr, log, dt = run_mc(mcj["model"], mcj["cfg"], wd, mcj.get("workers", JOBS), mcj.get("timeout", 1500), mcj.get("env"))
+            ok, st, tr, log, dt = run_mc(mcj["model"], mcj["cfg"], wd, mcj.get("slices", 16), mcj.get("timeout", 2400), mcj.get("env"))
             cov0 = []
             mc_results.append({"model": mcj["model"], "cfg": mcj["cfg"], "ok": ok, "states": st, "transitions": tr, "wall_s": round(dt, 1),
                                "what": mcj.get("what", "")})
